@@ -25,6 +25,51 @@ def gen_cases(rng, tier):
             h += ['r0,%d' % k]
         h += ['t%d' % rng.choice([3, 40, 400])]
         cases.append({'id': 'c08-conc-%d' % i, 'cfg': cfg, 'hist': h, 'sub': 'lsim', 'tags': {'mode': 'concurrent'}})
+    # kanata-level cancel paths (release-cancel, cancel-on-press and their window, repeat variants), macros started
+    # without a physical press (virtual key tapped on release, hold action of a tap-hold)
+    for i in range(160 if tier == 'quick' else 4000):
+        g = gen.CfgGen(rng, 'c08')
+        src = gen.SRC_POOL[:6]
+        variants = ['macro', 'macro-release-cancel', 'macro-cancel-on-press', 'macro-release-cancel-and-cancel-on-press',
+                    'macro-repeat', 'macro-repeat-release-cancel', 'macro-repeat-cancel-on-press',
+                    'macro-repeat-release-cancel-and-cancel-on-press']
+        acts = ['(%s %s)' % (rng.choice(variants), ' '.join(g.macro_items())) for _ in range(3)]
+        acts.append(rng.choice(['(on-release tap-vkey v0)', '(on-press tap-vkey v0)', '(tap-hold 20 20 x (macro %s))' % ' '.join(g.macro_items())]))
+        acts.append(rng.choice(['y', 'lsft', '(layer-while-held l1)']))
+        acts.append('z')
+        cfg = '(defsrc %s)\n(deflayer l0 %s)\n(deflayer l1 %s)\n(defvirtualkeys v0 (macro %s))' % (
+            ' '.join(src), ' '.join(acts), ' '.join(['_'] * 6), ' '.join(g.macro_items()))
+        codes = [gen.KEYCODES[k] for k in src]
+        if i % 2 == 0:
+            # schedule around the cancel-on-press window: a cancellable macro is started and released early, another macro is
+            # started without a physical press, then some key is pressed while that one runs
+            long_body = ' '.join(rng.choice(['x', 'y', '50', '100', '200', 'S-(z x)', '(unicode r)']) for _ in range(rng.randint(3, 6)))
+            acts[0] = '(%s %s)' % (rng.choice(['macro-release-cancel-and-cancel-on-press', 'macro-repeat-release-cancel-and-cancel-on-press', 'macro-cancel-on-press']), long_body)
+            acts[3] = rng.choice(['(on-release tap-vkey v0)', '(on-press tap-vkey v0)'])
+            cfg = '(defsrc %s)\n(deflayer l0 %s)\n(deflayer l1 %s)\n(defvirtualkeys v0 (macro %s))' % (
+                ' '.join(src), ' '.join(acts), ' '.join(['_'] * 6),
+                ' '.join(rng.choice(['b', 'n', '50', '100', 'm']) for _ in range(rng.randint(2, 5))))
+            a, b, z = codes[0], codes[3], codes[5]
+            gap = lambda: 't%d' % rng.choice([1, 3, 10, 30, 80, 200])
+            h = ['d%d' % b, gap(), 'd%d' % a, gap(), 'u%d' % a, gap(), 'u%d' % b, gap(), 'd%d' % z, gap(), 'u%d' % z, 't700', 'q']
+            if rng.random() < 0.3:
+                h = ['d%d' % a, gap(), 'u%d' % a, gap(), 'd%d' % b, gap(), 'u%d' % b, gap(), 'd%d' % z, gap(), 'u%d' % z, 't700', 'q']
+            cases.append({'id': 'c08-k-%d' % i, 'cfg': cfg, 'hist': h, 'sub': 'ksim', 'tags': {'mode': 'kanata-cancel-window'}})
+            continue
+        h = []
+        down = []
+        for _ in range(rng.randint(4, 14)):
+            if down and rng.random() < 0.45:
+                k = down.pop(rng.randrange(len(down)))
+                h.append('u%d' % k)
+            else:
+                k = rng.choice(codes)
+                if k not in down:
+                    down.append(k)
+                    h.append('d%d' % k)
+            h.append('t%d' % rng.choice([1, 2, 5, 10, 30, 120]))
+        h += ['u%d' % k for k in down] + ['t%d' % rng.choice([50, 600]), 'q']
+        cases.append({'id': 'c08-k-%d' % i, 'cfg': cfg, 'hist': h, 'sub': 'ksim', 'tags': {'mode': 'kanata-cancel'}})
     return cases
 
 
